@@ -168,6 +168,9 @@ fn c05_fams(tier: Tier) -> Vec<Fam> {
     v.push(Fam::Sinc { l: 9, os: 2, interp: Interp::Linear, ratio: 1.0 });
     v.push(Fam::Sinc { l: 9, os: 2, interp: Interp::Cubic, ratio: 0.9 });
     v.push(Fam::Sinc { l: 15, os: 4, interp: Interp::Quadratic, ratio: 1.25 });
+    // decimation by 3.3 and by 8 (the ratio is quadrupled in one step at a fixed input frame)
+    v.push(Fam::Sinc { l: 16, os: 16, interp: Interp::Cubic, ratio: 0.3 });
+    v.push(Fam::Sinc { l: 16, os: 16, interp: Interp::Linear, ratio: 0.125 });
     v.push(Fam::Fast { degree: Degree::Cubic, ratio: 1.0 / 12.0 });
     v.push(Fam::Fast { degree: Degree::Septic, ratio: 1.0 / 40.0 });
     for &ratio in &ratios {
@@ -352,6 +355,29 @@ impl Check for C05 {
                     for s in schedules(tier, l, max) {
                         c05_compare(&mut acc, &mk(kind, max), &s, &reference.out, tol, n_in.min(900), journal)?;
                     }
+                    // a ratio step at the same input frame (1024) under different chunkings of the
+                    // whole stream, fixed-input variant (what a call leaves in the history depends
+                    // on its chunk size; what the next call expects there on the new ratio)
+                    if kind == Kind::SI && (ratio == 0.25 || ratio == 0.3 || ratio == 0.125) && l >= 16 && interp != Interp::Nearest {
+                        for at in [1024usize, 1536, 2048] {
+                            let with_step = |chunk: usize| -> (Cfg, Vec<Op>) {
+                                let mut c = mk(kind, chunk);
+                                c.max_rel = 4.0;
+                                let mut p = vec![Op::P; at / chunk];
+                                p.push(Op::R(4.0, false));
+                                (c, p)
+                            };
+                            let (c0, p0) = with_step(64);
+                            let r0 = drive_prefixed(&c0, &p0, &vec![], 6000)?;
+                            if let Some(e) = r0.error {
+                                return Err(format!("reference stream with a ratio step failed: {}", e));
+                            }
+                            for chunk in [256usize, 128, 32, 512] {
+                                let (c, p) = with_step(chunk);
+                                c05_compare_p(&mut acc, &c, &p, &vec![], &r0.out, tol, 6000, journal)?;
+                            }
+                        }
+                    }
                     // setter calls that cancel each other before any frame is processed leave the
                     // constant ratio schedule: the stream must be the reference stream
                     if interp != Interp::Nearest {
@@ -366,8 +392,18 @@ impl Check for C05 {
                     // ramped call differs); not for Nearest (ties move with the ratio)
                     if interp != Interp::Nearest {
                         let mut c = mk(kind, max);
-                        c.max_rel = 2.0;
-                        for prefix in [vec![Op::P, Op::P, Op::R(0.8, true), Op::P], vec![Op::P, Op::R(1.25, true), Op::P]] {
+                        let jump = ratio == 0.25 && l >= 16;
+                        c.max_rel = if jump { 4.0 } else { 2.0 };
+                        let mut prefixes = vec![vec![Op::P, Op::P, Op::R(0.8, true), Op::P], vec![Op::P, Op::R(1.25, true), Op::P]];
+                        if jump {
+                            // decimating by 4, then four times the ratio in one step (no ramp: a
+                            // ramp would last one chunk, whose size the schedules vary): the
+                            // position still trails by the old step when the first chunk at the
+                            // new ratio arrives. (Stronger decimation with such a jump is KF-D.)
+                            prefixes.push(vec![Op::P, Op::P, Op::R(4.0, false)]);
+                            prefixes.push(vec![Op::P, Op::R(2.0, false), Op::P, Op::R(4.0, false)]);
+                        }
+                        for prefix in prefixes {
                             let r2 = drive_prefixed(&c, &prefix, &vec![], n_in.min(900))?;
                             if let Some(e) = r2.error {
                                 return Err(format!("reference stream with prefix failed: {}", e));
@@ -594,6 +630,23 @@ fn c07_items(tier: Tier) -> Vec<C07Item> {
         }
         if k == 900 || !q {
             items.push(C07Item { cfgs, horizon: Some(if k == 900 { 20_000 } else { 400_000 }) });
+        }
+    }
+    // chunks of more than 2^20 frames (a whole file per call), forty calls
+    {
+        let mut cfgs: Vec<(Cfg, Schedule)> = Vec::new();
+        for chunk in [1_048_577usize, 1_300_000] {
+            for kind in [Kind::FI, Kind::FO] {
+                cfgs.push((Cfg::fast(kind, 48000.0 / 44100.0, 1.0, chunk, Degree::Linear), vec![]));
+            }
+            if !q || chunk == 1_048_577 {
+                for kind in [Kind::SI, Kind::SO] {
+                    cfgs.push((Cfg::sinc(kind, 48000.0 / 44100.0, 1.0, chunk, 8, 2, Interp::Nearest, Kernel::Scalar), vec![]));
+                }
+            }
+        }
+        for c in cfgs.chunks(2) {
+            items.push(C07Item { cfgs: c.to_vec(), horizon: Some(40) });
         }
     }
     // FFT: every rate pair x chunk x sub
